@@ -413,29 +413,6 @@ impl<T: GseDecapMemory, C: CrcCalculator, MHEM: MandatoryHeaderExtensionManager>
                 }
             };
         };
-        // get pdu buffer
-        let mut pdu_buffer = match self.memory.new_pdu() {
-            Ok(pdu) => pdu,
-            Err(err) => {
-                self.last_label = None;
-                return Err((DecapError::ErrorMemory(err), pkt_len));
-            }
-        };
-
-        // check pdu buffer size
-        let pdu_buffer_len = pdu_buffer.len();
-
-        // check buffer size
-        if pdu_buffer_len + label_len + header_ext_len + PROTOCOL_LEN < gse_len {
-            self.last_label = None;
-            self.memory.provision_storage(pdu_buffer).unwrap();
-            return Err((DecapError::ErrorSizePduBuffer, pkt_len));
-        }
-        let calculed_pdu_len = gse_len - label_len - header_ext_len - PROTOCOL_LEN;
-
-        // read pdu
-        pdu_buffer[..calculed_pdu_len].copy_from_slice(&buffer[offset..offset + calculed_pdu_len]);
-
         // update last label
         let current_label = match label_type {
             // read last_label
@@ -465,6 +442,29 @@ impl<T: GseDecapMemory, C: CrcCalculator, MHEM: MandatoryHeaderExtensionManager>
                 label
             }
         };
+
+        // get pdu buffer
+        let mut pdu_buffer = match self.memory.new_pdu() {
+            Ok(pdu) => pdu,
+            Err(err) => {
+                self.last_label = None;
+                return Err((DecapError::ErrorMemory(err), pkt_len));
+            }
+        };
+
+        // check pdu buffer size
+        let pdu_buffer_len = pdu_buffer.len();
+
+        // check buffer size
+        if pdu_buffer_len + label_len + header_ext_len + PROTOCOL_LEN < gse_len {
+            self.last_label = None;
+            self.memory.provision_storage(pdu_buffer).unwrap();
+            return Err((DecapError::ErrorSizePduBuffer, pkt_len));
+        }
+        let calculed_pdu_len = gse_len - label_len - header_ext_len - PROTOCOL_LEN;
+
+        // read pdu
+        pdu_buffer[..calculed_pdu_len].copy_from_slice(&buffer[offset..offset + calculed_pdu_len]);
 
         // return status and pkt_length
         let metadata = DecapMetadata {
